@@ -23,6 +23,7 @@ import (
 //   append(s, ...)    ->  append(simrt.AP(s, site).([]T), ...)   (write to s[len:cap])
 //   sync   mu.Lock()    ->  simrt.MuLock(&(mu), site)           (Unlock, RLock, RUnlock)
 //          once.Do(f)   ->  simrt.OnceDo(&(once), f, site)
+//          pool.Get()   ->  simrt.PoolGet(&(pool), site);  pool.Put(v) -> simrt.PoolPut(&(pool), site, v)
 
 var sizes = types.SizesFor("gc", "amd64")
 
@@ -398,6 +399,10 @@ func (c *w3ctx) call(x *ast.CallExpr) {
 				repl = "MuRUnlock"
 			case kind == "Once" && se.Sel.Name == "Do":
 				repl = "OnceDo"
+			case kind == "Pool" && se.Sel.Name == "Get" && len(x.Args) == 0:
+				repl = "PoolGet"
+			case kind == "Pool" && se.Sel.Name == "Put" && len(x.Args) == 1:
+				repl = "PoolPut"
 			}
 			if repl != "" {
 				recv := c.text(se.X)
@@ -405,7 +410,10 @@ func (c *w3ctx) call(x *ast.CallExpr) {
 					recv = "&(" + recv + ")"
 				}
 				id := c.site("sync", x)
-				if repl == "OnceDo" {
+				if repl == "PoolPut" {
+					c.fc.replace(c.off(x.Pos()), c.off(x.Lparen)+1, fmt.Sprintf("simrt.PoolPut(%s, %d, ", recv, id))
+					c.exprs(x.Args)
+				} else if repl == "OnceDo" {
 					c.fc.replace(c.off(x.Pos()), c.off(x.Lparen)+1, fmt.Sprintf("simrt.OnceDo(%s, ", recv))
 					c.fc.insert(c.off(x.Rparen), fmt.Sprintf(", %d", id), 1<<29)
 					c.exprs(x.Args)
